@@ -82,9 +82,10 @@ def element(node: AbbreviationNode, index: int, items: list, state: HTMLWalkStat
 
             out.push_string('</%s>' % name)
             comment_node_after(node, state)
-    elif not push_snippet(node, state, walk_next) and node.value:
-        # A text-only node (snippet)
-        push_tokens(node.value, state)
+    elif not push_snippet(node, state, walk_next):
+        # A text-only node (snippet); its text may be empty (`{}`)
+        if node.value:
+            push_tokens(node.value, state)
         _next(node.children, walk_next)
 
     if fmt and index == len(items) - 1 and state.parent:
